@@ -48,7 +48,14 @@ pub struct Obs {
     pub status: String,
 }
 
+/// The implementation on one input; a panic inside it is an observation ("Panicked"), not a crash.
 pub fn run_impl(cs: &[Cand], accept: f64, material: f64) -> Obs {
+    std::panic::catch_unwind(|| run_impl_inner(cs, accept, material)).unwrap_or(Obs {
+        s: f64::NAN, sg: usize::MAX, o: f64::NAN, og: usize::MAX, status: "Panicked".to_string(),
+    })
+}
+
+fn run_impl_inner(cs: &[Cand], accept: f64, material: f64) -> Obs {
     let v = to_verif(cs);
     let (s, sg) = verif::aggregate(&v, false);
     let (o, og) = verif::aggregate(&v, true);
@@ -143,6 +150,7 @@ pub fn main(args: &[String]) {
     let mut rng = Rng::from_env();
     let confs = confs();
     let mut out = std::io::BufWriter::new(std::fs::File::create(&out_path).unwrap());
+    std::panic::set_hook(Box::new(|_| {}));
 
     let mut evaluations = 0u64;
     let mut perm_sets = 0u64;
@@ -165,6 +173,11 @@ pub fn main(args: &[String]) {
                               rng: &mut Rng, out: &mut dyn Write| {
         let base = run_impl(cs, acc, mat);
         evaluations += 1;
+        if base.status == "Panicked" {
+            failures.push(json!({"what": "implementation panicked in aggregate/classify",
+                "candidates": format!("{cs:?}"), "accept": acc, "material": mat}));
+            return;
+        }
         *hist_n.entry(cs.len()).or_default() += 1;
         *hist_status.entry(base.status.clone()).or_default() += 1;
         // oracle 1: group counts = connected components
